@@ -65,7 +65,8 @@ func securityFor(r *Run, carrier string, cfg *WorldCfg) {
 	c := r.Ch
 	if CarrierEncrypted(carrier) {
 		cfg.ServerCert = "good"
-		if c.Chance(1, 2, "tls-verify") {
+		// a unix-domain or standard-stream upstream has no host name to verify
+		if c.Chance(1, 2, "tls-verify") && carrier != "unix+tls" && carrier != "stdio+tls" {
 			cfg.ClientCA = "good"
 		} else {
 			cfg.ClientInsecure = true
@@ -75,13 +76,18 @@ func securityFor(r *Run, carrier string, cfg *WorldCfg) {
 	// unencrypted carrier: optionally StartTLS
 	if c.Chance(1, 2, "starttls") {
 		cfg.ServerCert = "good"
-		if c.Chance(1, 2, "tls-verify") {
+		if c.Chance(1, 2, "tls-verify") && StartTLSVerifies {
 			cfg.ClientCA = "good"
 		} else {
 			cfg.ClientInsecure = true
 		}
 	}
 }
+
+// StartTLSVerifies says whether worlds other than C05's may rely on
+// certificate verification succeeding over StartTLS (see known finding
+// C05/starttls-servername; C05 itself always exercises it).
+var StartTLSVerifies = false
 
 func scenarioC01(r *Run) {
 	c := r.Ch
